@@ -59,8 +59,8 @@ ASSUMPTIONS = [
     "the user's pick is the last member set to y since the last reset / replacing load (mck/refsem.RefState)",
     "Symbol.unset_value on members is not in the alphabet (UI-level reset is what users have)",
     "loaded files carry no default-marked entries (C08 owns those)",
-    "an instance carries no state beyond user values, user selections and the memo cells (_cached_*, _write_to_conf) "
-    "that the live search merges on; 'evaluating' the configuration means reading through the public properties "
+    "an instance carries no per-option / per-choice state beyond the cells the live search merges on (SYM_CELLS / "
+    "CHOICE_CELLS: user values, selections, load bookkeeping, every memo cell); 'evaluating' the configuration means reading through the public properties "
     "(str_value / visibility / assignable / Choice.selection) or running the real output writers",
     "a named choice defined twice is only generated with all definitions hidden alike or with the single prompted one hidden "
     "(what per-definition `depends on` means for the members of the other definition is not documented)",
@@ -379,19 +379,32 @@ def replay_live(files, h, rk: str, points) -> "impl.Inst":
     return inst
 
 
+SYM_CELLS = (
+    "_user_value", "_cached_str_val", "_cached_bool_val", "_cached_vis", "_cached_assignable", "_write_to_conf", "_was_set",
+    "_present_in_current_sdkconfig", "_has_active_indirect_set", "_user_source", "_default_value_injected", "_defaults_resolved",
+    "_old_val", "_loaded_as_default", "_sdkconfig_value",
+)
+CHOICE_CELLS = (
+    "_user_selection", "_user_value", "_cached_vis", "_cached_assignable", "_cached_selection", "_was_set",
+    "_present_in_current_sdkconfig", "_defaults_resolved", "_user_source",
+)
+
+
+def _cell(x):
+    if x is None or isinstance(x, (bool, int, str)):
+        return x
+    if isinstance(x, (tuple, list)):
+        return tuple(_cell(y) for y in x)
+    n = getattr(x, "name", None)
+    return ("obj", n) if isinstance(n, str) else repr(x)
+
+
 def memo_key(k) -> tuple:
-    """everything an instance carries: user values / selections and the content of every memo cell"""
-    no_sel = impl.core()._NO_CACHED_SELECTION
-
-    def seln(x):
-        return x if (x is None or x is no_sel) else x.name
-
+    """everything an instance carries per option / choice: user values / selections, load bookkeeping and the content of
+    every memo cell (deliberately over-fine)"""
     return (
-        tuple((s._user_value, s._cached_str_val, s._cached_bool_val, s._cached_vis, s._cached_assignable, bool(s._write_to_conf)) for s in k.unique_defined_syms),
-        tuple(
-            (seln(c._user_selection), getattr(c, "_user_value", None), c._cached_vis, c._cached_assignable, seln(c._cached_selection))
-            for c in k.unique_choices
-        ),
+        tuple(tuple(_cell(getattr(s, a, None)) for a in SYM_CELLS) for s in k.unique_defined_syms),
+        tuple(tuple(_cell(getattr(c, a, None)) for a in CHOICE_CELLS) for c in k.unique_choices),
     )
 
 
